@@ -20,7 +20,8 @@ inductive GVal where
   | ptr (loc : Nat)
   | nilv
   | array (vs : List GVal)
-  | slice (vs : List GVal)
+  /-- a slice header: backing array (a heap cell holding `.array`), length, capacity -/
+  | slice (loc len cap : Nat)
   | func (name : String)
   deriving Inhabited
 
@@ -32,6 +33,10 @@ structure GWorld where
   spawned : List (GVal × List GVal) := []
   externs : List String := []
   eager : Bool := true
+  /-- the Go specification leaves the capacity after growth open: `0` = grow to exactly the new
+      length (an append never shares), `k+1` = grow to `2·len + k + 1` (appends to a common prefix
+      may share the backing array) -/
+  capPolicy : Nat := 0
   deriving Inhabited
 
 inductive GRes (α : Type) where
@@ -125,15 +130,24 @@ def goTypeName : GVal → String
   | .struct n _ => "main." ++ n
   | _ => "?"
 
-/-- `%v` of a value (floats: see `showFloat`) -/
-partial def showV : GVal → String
+/-- `%v` of a composite value (never printed by the runtime helpers; kept for completeness) -/
+partial def showComposite : GVal → String
   | .int _ _ v => toString v
   | .float b x => Goml.Sem.showFloat b x
   | .bool b => if b then "true" else "false"
   | .str s => s
   | .unit => "{}"
-  | .struct _ fs => "{" ++ " ".intercalate (fs.map fun (_, v) => showV v) ++ "}"
+  | .struct _ fs => "{" ++ " ".intercalate (fs.map fun (_, v) => showComposite v) ++ "}"
   | _ => "?"
+
+/-- `%v` of a value (floats: see `showFloat`) -/
+def showV : GVal → String
+  | .int _ _ v => Goml.Sem.showInt v
+  | .float b x => Goml.Sem.showFloat b x
+  | .bool b => if b then "true" else "false"
+  | .str s => s
+  | .unit => "{}"
+  | v => showComposite v
 
 /-- `fmt.Sprintf` for the verbs the runtime uses; a verb applied to the wrong kind of operand
     renders as `%!d(float32=3.5)` exactly as Go does -/
@@ -147,7 +161,7 @@ def sprintf (fmt : List Char) (args : List GVal) (acc : String) : String :=
     | a :: args' =>
       let piece : String :=
         match c, a with
-        | 'd', .int _ _ v => toString v
+        | 'd', .int _ _ v => Goml.Sem.showInt v
         | 'v', v => showV v
         | 's', .str s => s
         | 'q', .str s => goQuote s
@@ -273,10 +287,18 @@ def evalG (fuel : Nat) (F : GFile) (ρ : GEnv) (w : GWorld) (e : GExpr) : GRes G
       | .ok (.int _ _ i) w =>
         if i < 0 then .fail (.panic "index out of range") w else
         match a with
-        | .array vs | .slice vs =>
+        | .array vs =>
           match vs[i.toNat]? with
           | some v => .ok v w
           | none => .fail (.panic "index out of range") w
+        | .slice loc len _ =>
+          if i.toNat ≥ len then .fail (.panic "index out of range") w else
+          match w.heap[loc]? with
+          | some (.array vs) =>
+            match vs[i.toNat]? with
+            | some v => .ok v w
+            | none => .fail (.stuck "go: slice backing array too short") w
+          | _ => .fail (.stuck "go: slice without backing array") w
         | .nilv => .fail (.panic "index out of range") w
         | .str s =>
           let bs := s.toUTF8
@@ -312,7 +334,7 @@ def evalG (fuel : Nat) (F : GFile) (ρ : GEnv) (w : GWorld) (e : GExpr) : GRes G
     | .fail f w => .fail f w
     | .ok vs w =>
       match ty with
-      | .slice _ => .ok (.slice vs) w
+      | .slice _ => .ok (.slice w.heap.size vs.length vs.length) { w with heap := w.heap.push (.array vs) }
       | _ => .ok (.array vs) w
   | .blocke _ stmts e =>
     match execBlockG fuel F ρ w stmts with
@@ -374,11 +396,24 @@ def callG (fuel : Nat) (F : GFile) (w : GWorld) (f : GVal) (args : List GVal) : 
       | "println", _ => .ok .void w          -- builtin println writes to stderr
       | "panic", [.str s] => .fail (.panic (if s == "" then "missing" else s)) w
       | "len", [.str s] => .ok (.int 64 true s.utf8ByteSize) w
-      | "len", [.slice vs] => .ok (.int 64 true vs.length) w
+      | "len", [.slice _ len _] => .ok (.int 64 true len) w
       | "len", [.array vs] => .ok (.int 64 true vs.length) w
       | "len", [.nilv] => .ok (.int 64 true 0) w
-      | "append", [.slice vs, v] => .ok (.slice (vs ++ [v])) w
-      | "append", [.nilv, v] => .ok (.slice [v]) w
+      | "append", [.slice loc len cap, v] =>
+        match w.heap[loc]? with
+        | some (.array vs) =>
+          if len < cap then
+            -- room left: the element is written into the shared backing array
+            .ok (.slice loc (len + 1) cap) { w with heap := w.heap.set! loc (.array (vs.set len v)) }
+          else
+            let newCap := if w.capPolicy == 0 then len + 1 else 2 * len + w.capPolicy
+            let fresh := (vs.take len) ++ [v] ++ List.replicate (newCap - len - 1) GVal.unit
+            .ok (.slice w.heap.size (len + 1) newCap) { w with heap := w.heap.push (.array fresh) }
+        | _ => .fail (.stuck "go: slice without backing array") w
+      | "append", [.nilv, v] =>
+        let newCap := if w.capPolicy == 0 then 1 else w.capPolicy
+        .ok (.slice w.heap.size 1 newCap)
+          { w with heap := w.heap.push (.array (v :: List.replicate (newCap - 1) GVal.unit)) }
       | n, [v] =>
         match isIntTy n with
         | some (b, s) =>
@@ -573,8 +608,9 @@ def tswitchG (fuel : Nat) (F : GFile) (ρ : GEnv) (w : GWorld) (v : GVal) (cases
     if hit then nestedG fuel F ρ w body else tswitchG fuel F ρ w v rest dflt
 end
 
-def runGo (fuel : Nat) (F : GFile) (entry : String := "main") (eager : Bool := true) : Goml.Sem.Outcome :=
-  match callG fuel F { eager := eager } (.func entry) [] with
+def runGo (fuel : Nat) (F : GFile) (entry : String := "main") (eager : Bool := true)
+    (capPolicy : Nat := 0) : Goml.Sem.Outcome :=
+  match callG fuel F { eager := eager, capPolicy := capPolicy } (.func entry) [] with
   | .ok _ w => { out := w.out, status := "ok", externs := w.externs }
   | .fail f w => { out := w.out, status := Goml.Sem.failStr f, externs := w.externs }
 
